@@ -1,5 +1,6 @@
 import ImathVerif.Lemmas.FixedArrayWrite
 import ImathVerif.Lemmas.StringTableLemmas
+import ImathVerif.Lemmas.FixedArray2DLemmas
 import ImathVerif.Model.FixedArrayWitness
 import ImathVerif.Model.BufferProtocol
 /-!
@@ -36,7 +37,7 @@ theorem getElem?_append_lt {α : Type} {l : List α} {x : α} {b : Nat} (hb : b 
     (l ++ [x])[b]? = l[b]? := by
   simp [List.getElem?_append_left hb]
 
-private theorem push_protected {s : State} {b : Nat} {h' : Heap} {f : View}
+theorem push_protected {s : State} {b : Nat} {h' : Heap} {f : View}
     (hp : Protected s b) (hf : f.buf = b → f.writable = false) :
     Protected (s.push h' f).1 b := by
   intro v hv hvb
@@ -45,7 +46,7 @@ private theorem push_protected {s : State} {b : Nat} {h' : Heap} {f : View}
   | inl h => exact hp v h hvb
   | inr h => subst h; exact hf hvb
 
-private theorem withNew_protected {s : State} {b : Nat} (hb : b < s.heap.length) (hp : Protected s b)
+theorem withNew_protected {s : State} {b : Nat} (hb : b < s.heap.length) (hp : Protected s b)
     {r : Except Err (Heap × View)} (hfresh : ∀ x, r = .ok x → Fresh s.heap x) :
     (s.withNew r).1.heap[b]? = s.heap[b]? ∧ Protected (s.withNew r).1 b ∧
       s.heap.length ≤ (s.withNew r).1.heap.length := by
@@ -61,7 +62,7 @@ private theorem withNew_protected {s : State} {b : Nat} (hb : b < s.heap.length)
     · exact push_protected hp (fun hfb => by omega)
     · simp [State.withNew, State.push]
 
-private theorem withHeap_protected {s : State} {b : Nat} (hp : Protected s b) {a : View} (ha : a ∈ s.env)
+theorem withHeap_protected {s : State} {b : Nat} (hp : Protected s b) {a : View} (ha : a ∈ s.env)
     {r : Except Err Heap}
     (hm : ∀ h', r = .ok h' → a.writable = true ∧ Frame a.buf s.heap h') :
     (s.withHeap r).1.heap[b]? = s.heap[b]? ∧ Protected (s.withHeap r).1 b ∧
@@ -638,6 +639,46 @@ theorem convert_repaired_refines {cfg : Cfg} (hc : cfg.convertDense = true) {h :
   refine ⟨_, _, ?_, hA.2, hA.1, rfl⟩
   unfold convert
   simp [w.readAll, hc]
+
+
+/-! ## FixedArray2D / FixedMatrix against nested lists -/
+open ImathVerif.FixedArray2D
+
+/-- `a.item(i, j)`, ints of any sign: `nested[j][i]`, `IndexError` in exactly the same cases -/
+theorem array2d_item_refines {h : Heap} {v : View2D} (w : v.WF (shape h)) (i j : Int) :
+    item h v i j = (match (PyList.getitem (v.toNested h) j).bind (fun row => PyList.getitem row i) with
+      | some x => .ok x
+      | none => .error .indexError) := item_refines w i j
+
+/-- `a[sx, sy]`: a fresh array equal to `[[row[i] for i in range(lenX)[sx]] for row in nested[sy]]`,
+    whenever the subscripts are accepted — which every forward slice is (`array2d_forward_slices_accepted`) -/
+theorem array2d_getslice_forward_refines {h : Heap} {v : View2D} (w : v.WF (shape h))
+    {ax bx cx ay by' cy : Option Int}
+    (hcx : ∀ x, cx = some x → -PY_SSIZE_T_MAX ≤ x) (hcy : ∀ x, cy = some x → -PY_SSIZE_T_MAX ≤ x)
+    {h' : Heap} {f : View2D}
+    (hr : getslice2D h v (.slice ax bx cx) (.slice ay by' cy) = .ok (h', f)) :
+    ∃ xs ys, PyList.sliceIndices v.lenX ax bx cx = some xs ∧ PyList.sliceIndices v.lenY ay by' cy = some ys ∧
+      f.toNested h' = (PyList.pick (v.toNested h) ys).map (fun row => PyList.pick row xs) ∧
+      f.lenX = xs.length ∧ f.lenY = ys.length ∧ f.buf = h.length := getslice2D_refines w hcx hcy hr
+
+theorem array2d_forward_slices_accepted {n : Nat} (hn : (n : Int) ≤ PY_SSIZE_T_MAX) {a b c : Option Int}
+    (hpos : 0 < c.getD 1) : ∃ s, extract2D n (.slice a b c) = .ok s := extract2D_forward_ok hn hpos
+
+/-- `m[i]`: a writable view on row `i` (same allocation), reading `nested[i]`; `IndexError` as for a list -/
+theorem matrix_row_refines {h : Heap} {m : MatView} (w : m.WF (shape h)) (i : Int) :
+    (match PyList.getitem (m.toNested h) i with
+      | some rowList => ∃ row, matRow m i = .ok row ∧ row.toList h = rowList ∧ row.WF (shape h) ∧
+          row.buf = m.buf ∧ row.writable = true
+      | none => matRow m i = .error .indexError) := matRow_refines w i
+
+/-- non-vacuity: the 3x2 array allocated by `d2 alloc 3 2 ...` is well formed -/
+example : (alloc2D [] 3 2 [1, 2, 3, 4, 5, 6]).2.WF (shape (alloc2D [] 3 2 [1, 2, 3, 4, 5, 6]).1) := by
+  refine ⟨by decide, by decide, 6, by decide, ?_⟩
+  intro i j hi hj
+  simp only [alloc2D, View2D.pos] at hi hj ⊢
+  have : i < 3 := hi
+  have : j < 2 := hj
+  omega
 
 /-! ## StringTable / StringArray -/
 open ImathVerif.StringTable in
